@@ -74,6 +74,12 @@ func (prop) Generate(rng *core.Rand, tier string, emit func(string)) {
 	} else if tier == "search" {
 		n = 60000
 	}
+	emit("cost known 20000 4")
+	emit("cost all 200000 4")
+	emit("cost orerr 200000 4")
+	for c := 0; c < n/4; c++ {
+		genHTTP(rng.Fork(), emit)
+	}
 	for c := 0; c < n; c++ {
 		var sb strings.Builder
 		np := rng.Intn(9)
@@ -195,6 +201,9 @@ func (prop) Run(line string) core.Outcome {
 	f := strings.Fields(line)
 	if len(f) == 4 && f[0] == "cost" {
 		return runCost(line, f)
+	}
+	if len(f) == 8 && f[0] == "http" {
+		return runHTTP(line, f)
 	}
 	if len(f) != 4 {
 		return core.Outcome{Impl: "bad-op"}
